@@ -69,14 +69,15 @@ def source_hash():
     return h.hexdigest()[:16]
 
 
-ASAN_FLAGS = "-D%s -fno-builtin -g -O1 -fsanitize=address,undefined -fno-sanitize-recover=all -fno-omit-frame-pointer" % GUARD
+ASAN_FLAGS = "-D%s -fno-builtin -g -O1 -fsanitize=address,undefined -fno-sanitize=shift -fno-sanitize-recover=all -fno-omit-frame-pointer" % GUARD
 PLAIN_FLAGS = "-D%s -fno-builtin -g -O1" % GUARD
 
 
 def libbuild(kind="asan"):
     """Configure+build static libs and tools from /repo's current tree. Returns build dir.
     kind: 'asan' (default; sanitizer oracle) or 'plain' (for valgrind-free fast sweeps)."""
-    hsh = source_hash()
+    flags = ASAN_FLAGS if kind == "asan" else PLAIN_FLAGS
+    hsh = source_hash() + "-" + hashlib.sha256(flags.encode()).hexdigest()[:6]
     bdir = os.path.join(WORK, "build-%s-%s" % (kind, hsh))
     with lock("libbuild-" + kind):
         if os.path.exists(os.path.join(bdir, ".ok")):
@@ -86,7 +87,6 @@ def libbuild(kind="asan"):
             if old != bdir:
                 shutil.rmtree(old, ignore_errors=True)
         shutil.rmtree(bdir, ignore_errors=True)
-        flags = ASAN_FLAGS if kind == "asan" else PLAIN_FLAGS
         t0 = time.time()
         cfg = ["cmake", "-G", "Ninja", "-S", REPO, "-B", bdir, "-DCMAKE_BUILD_TYPE=RelWithDebInfo",
                "-DBUILD_SHARED_LIBS=OFF", "-DHDF4_BUILD_FORTRAN=OFF", "-DHDF4_BUILD_JAVA=OFF",
